@@ -494,8 +494,42 @@ def consistent_graph(rng, max_nodes=8, erase=True, wrong_output=True):
                     else:
                         rec["kwargs"] = [["output_type", None]]
                     erased.append(name)
+                if name in erased and rng.random() < 0.35 and not any(k == "metadata" for k, _ in rec["kwargs"]):
+                    rec["kwargs"].append(["metadata", metadata(rng)])     # an undefined annotation *and* metadata
     g = {"type": "NIRGraph", "nodes": nodes, "edges": edges, "meta": None}
+    if rng.random() < 0.35:
+        g, truth, erased = rename_nodes(rng, g, truth, erased)
     return g, truth, erased
+
+
+def rename_nodes(rng, g, truth, erased):
+    """names that collide with nothing but *look* like other names: single characters taken from an Input's name,
+    a name extended by a dotted suffix, prefixes of one another, reserved words"""
+    names = [n for n, _ in g["nodes"]]
+    inputs = [n for n, r in g["nodes"] if r["type"] == "Input"]
+    mapping = {}
+    taken = set(names)
+    for n in rng.sample(names, min(len(names), rng.randrange(1, 4))):
+        style = rng.random()
+        if style < 0.4 and inputs:
+            cand = rng.choice(list(rng.choice(inputs)))                 # one character of an Input's name
+        elif style < 0.7:
+            cand = rng.choice(names) + rng.choice([".x", ".1", ".input", ".output"])   # other name + dotted suffix
+        elif style < 0.85:
+            cand = rng.choice(names)[:max(1, len(rng.choice(names)) - 1)]               # a prefix of another name
+        else:
+            cand = rng.choice(["nodes", "edges", "type", "metadata", "input", "output", "shape"])
+        if cand in taken or not cand or "/" in cand:
+            continue
+        taken.add(cand)
+        mapping[n] = cand
+    if not mapping:
+        return g, truth, erased
+    m = lambda x: mapping.get(x, x)
+    g = dict(g)
+    g["nodes"] = [[m(n), r] for n, r in g["nodes"]]
+    g["edges"] = [[m(a), m(b)] for a, b in g["edges"]]
+    return g, {m(k): v for k, v in truth.items()}, [m(x) for x in erased]
 
 
 NAMES += ["a\x00b", "\x00x", "nul\x00"]
@@ -516,7 +550,7 @@ def rand_name(rng, slash=False):
     return n
 
 
-def random_graph(rng, depth=0, maxdepth=3, max_nodes=8, slash=False, meta_p=0.3):
+def random_graph(rng, depth=0, maxdepth=3, max_nodes=8, slash=False, meta_p=0.3, share_p=0.0):
     """Any graph of the C01 domain: all primitives, nesting, arbitrary names, arbitrary edge
     multiset (cyclic, self-loops, parallel, dangling, dotted), metadata anywhere.  Not
     necessarily type-consistent."""
@@ -528,13 +562,13 @@ def random_graph(rng, depth=0, maxdepth=3, max_nodes=8, slash=False, meta_p=0.3)
             continue
         used.add(name)
         if depth < maxdepth and rng.random() < 0.15:
-            nodes.append([name, random_graph(rng, depth + 1, maxdepth, max_nodes=4, slash=slash, meta_p=meta_p)])
+            nodes.append([name, random_graph(rng, depth + 1, maxdepth, max_nodes=4, slash=slash, meta_p=meta_p, share_p=share_p)])
         else:
             kind = rng.choice(LEAF_KINDS)
             nodes.append([name, node_recipe(rng, kind, meta_p=meta_p)])
     share = []
     leafs = [(x, r) for x, r in nodes if r["type"] != "NIRGraph"]
-    if leafs and rng.random() < 0.2:
+    if leafs and rng.random() < share_p:
         # the same node *object* registered under a second name (shared layer): in the value world it is simply an
         # equal node; on real objects every observer must still treat the two names independently
         import copy
